@@ -226,6 +226,18 @@ fn kzg_lists(ctx: &KzgCtx, s: &Value) -> Result<KzgLists, String> {
     for (i, pr) in arr(s, "proofs").iter().enumerate() {
         proofs.push(kzg_proof(ctx, pr, i as u64)?);
     }
+    // cross-proof compensation for unit randomizers (see spec/DirectSession.tla, plan compensate_unit)
+    if let Some(c) = s["comp"].as_array() {
+        let (i, j) = (c[0].as_u64().unwrap() as usize - 1, c[1].as_u64().unwrap() as usize - 1);
+        if i < proofs.len() && j < proofs.len() && i < points.len() && j < points.len() && points[i] != points[j] {
+            use ark_ff::Field;
+            let d = Fr::from(geti(&arr(s, "vals")[i], "d").unsigned_abs());
+            let e = d * (points[i] - points[j]).inverse().unwrap();
+            let g = ctx.vk.g;
+            proofs[i].w = (proofs[i].w + g * e).into_affine();
+            proofs[j].w = (proofs[j].w + g * (-e)).into_affine();
+        }
+    }
     let equal = comms.len() == points.len() && points.len() == vals.len() && vals.len() == proofs.len();
     // concrete truth of what is claimed: a claim is a complete (commitment, point, value) triple,
     // value_i == polynomial(comms_i)(points_i), and there is exactly one proof per claim
